@@ -44,6 +44,13 @@ CHECKS["C15"] = dict(
    note="Trusted: z3, symx, numpy/astropy semantics as modelled in symx.symnp / symx.units (argsort = any sorting permutation), velocities as pairwise-distinct labels, reals for floats.",
    technique="symbolic execution of the real Python source + z3 (LRA + Int permutation + small NRA); sat models replayed on the real RVData",
    ref="3/C15")
+CHECKS["C08"] = dict(
+   text="validate_prepare_data (list and dict branches), RVData.__init__ and the design-matrix builders run on symbolic epochs/velocities/errors of up to 3 surveys (so disjoint, interleaved and identical epochs are all models of one query) with any sorting permutation; "
+        "z3 proves per path: merged set = union with intact triples, ids[r] = survey of the observation in row r, v0 column all ones, offset column c is 1 exactly on survey c's rows (list: source k <-> dv0_k), trend columns = (t - t_ref)^p. "
+        "One recorded finding (ids left in concatenation order; a stable baseline test pins that layout) is reported as KNOWN-FINDING; every VC is additionally proved under the finding's mask (surveys not interleaved) so that any other violation is still reported.",
+   note="Trusted: z3, symx, numpy/astropy semantics as modelled; velocities as distinct labels. Bounds: <=3 surveys, <=4 epochs total (quick), <=6 (thorough), poly_trend<=3.",
+   technique="symbolic execution of the real Python source + z3 (LRA + Int permutation); sat models replayed on real RVData objects",
+   ref="3/C08")
 NOT_YET = {}
 ALL = ["C%02d" % i for i in range(1, 20)]
 
